@@ -113,3 +113,5 @@ def ast_witnesses():
 if os.environ.get('QV_AST_WITNESSES'):
     ast_witnesses()
 w('C06', 'fixed_dim_bound_overflow', 'DIM z(1E+38 * 10)\nDIM y(1 \\ 0)\n')
+w('C19', 'fixed_using_zero_before_point', None, kind='num', format='#.', values=[-0.5])
+w('C07', 'fixed_negative_base_large_exponent', 'x! = -162\nPRINT x! ^ 264.5\n', want='INVALID_OPERAND_VALUE')
